@@ -264,7 +264,20 @@ def l3_records(pa, rng, count, backends, modes, violations, shapes=SHAPES_SEARCH
         if not c:
             continue
         kind, d = random_dissim(pa, rng, c)
-        D, de_int = ar.observe_table(pa, c, d, R_SCALE)
+        try:
+            D, de_int = ar.observe_table(pa, c, d, R_SCALE)
+        except Exception as ex0:
+            # the library failed while the harness was only observing the pairwise table: it counts as a violation
+            # of "the computation returns" only if the alignment computation itself fails on this input too
+            try:
+                c.get_best_alignment(d)
+            except Exception as ex:
+                violations.append(("Returns", {"mode": "partition", "exception": repr(ex), "dissim": kind,
+                                               "continuum": continuum_summary(c)}))
+                recs_failed = True
+                tries += 0
+                continue
+            raise MachineryError(f"cannot observe the pairwise table: {ex0!r}")
         recs += run_modes(pa, c, d, D, de_int, R_SCALE, tol=8, band=16, backends=backends, modes=modes,
                           search=search and c.num_units <= 12, cands=cands, recompute=recompute, rng=rng,
                           violations=violations,
